@@ -146,6 +146,19 @@ func (con *Connection) Write(b []byte) (int, error) {
 
 // Read reads bytes from the connection. The read bytes are decrypted when possible.
 func (con *Connection) Read(b []byte) (int, error) {
+	if con.bufferedReader == nil {
+		con.bufferedReader = bufio.NewReader(con.connection)
+	}
+
+	// Wait for data without consuming it as long as the connection is not
+	// encrypted: pair-verify may complete while this read is pending, and the
+	// bytes which arrive then have to be decrypted.
+	if con.getDecrypter() == nil && len(b) > 0 {
+		if _, err := con.bufferedReader.Peek(1); err != nil {
+			return 0, err
+		}
+	}
+
 	if con.getDecrypter() != nil {
 		return con.DecryptedRead(b)
 	}
@@ -157,7 +170,7 @@ func (con *Connection) Read(b []byte) (int, error) {
 		b = b[:1]
 	}
 
-	return con.connection.Read(b)
+	return con.bufferedReader.Read(b)
 }
 
 // Close closes the connection and deletes the related session from the context.
